@@ -16,7 +16,8 @@ CHECKS = {
             "inter-procedural ownership/effect (may-alias, may-write) analysis + who-may-call over the call graph; def-use completeness of "
             "memo-cache keys (PU-CACHE); CFG rule on value-less exits whose value is used (PU-NONE); must-analysis over reaching "
             "definitions of arithmetic carried out in the dtype of the caller's arrays (PU-INTARITH); def-use rule on scratch buffers "
-            "refilled in part and read whole (BUF-STALE, run by every check)",
+            "refilled in part and read whole (BUF-STALE, run by every check); CFG rule on guard flags set around a call and reset outside a finally (ST-FLAG, run by every check); "
+            "CFG must-pass-through of reads of lazily computed attributes behind the computation or the computed edge of a marker test (PU-LAZY)",
             CLAUSE + "Decides: no public entry point writes through an argument (PU-ARGS), no method mutates an object "
             "reachable from self in place (PU-CAPT), no module/class/default-argument state is written (PU-STATE), RNG and "
             "pyplot who-may-call (PU-RNG, PU-PLT), integer-closed stores into caller-typed copies and casts of one argument to another's "
@@ -27,6 +28,8 @@ CHECKS = {
             "own state, not captured caller data (PU-CAPT, decided from every store to the attribute in the class hierarchy), a "
             "clock reading that only reaches logging calls — also through parameters of helpers — is no source of "
             "non-repeatability (PU-RNG). "
+            "PU-SHARE: a mutable module-level object is not stored on an instance or returned without a copy. PU-LAZY: every public method of the two landscape classes, "
+            "and every module-level function handed a landscape, reads what compute_landscape stores lazily (critical_pairs / values / max_depth, read off its stores) only behind the computation. "
             "Declines: bit-identical repeatability of floating-point results.",
             "Trusted: the copy/view/mutator table for external callables in pst/core/own.py; user-supplied weight/kernel "
             "callables are pure by contract; path-insensitive may-analysis (a write behind an infeasible branch would be "
@@ -58,7 +61,7 @@ CHECKS.update({
             "candidate for every n and every position of it. Declines: that Hopcroft-Karp finds a maximum matching, float ties.",
             SYMNOTE + "Hopcroft-Karp returns a maximum matching (dict with both directions).", "DESIGN.md §4 C01"),
     "C02": (True, "symbolic abstract interpretation to normal forms (rotation constants folded, blocks, solver wiring)",
-            CLAUSE + "Decides WS-DTYPE (no cast of one diagram to the other's dtype, no float store into a diagram-typed array, no arithmetic between the two diagrams in their own integer dtype), WS-SHORT (no short cut on column-wise sorted diagrams), ST-CACHE (module-level memo caches written by the analysed code are keyed by everything they depend on — run by every check), WS-COST, WS-TILE, WS-FILTER/WARN, WS-SOLVE, WS-EMPTY (empty and all-infinite diagrams), IT-ONCE (no one-shot "
+            CLAUSE + "Decides WS-DTYPE (no cast of one diagram to the other's dtype, no float store into a diagram-typed array, no arithmetic between the two diagrams in their own integer dtype), WS-SHORT (no short cut on column-wise sorted diagrams), ST-CACHE (module-level memo caches and class-level memo tables written by the analysed code are keyed by everything they depend on; a public class does not answer from a constructor-time snapshot of a plain public attribute — run by every check), WS-COST, WS-TILE, WS-FILTER/WARN, WS-SOLVE, WS-EMPTY (empty and all-infinite diagrams), IT-ONCE (no one-shot "
             "iterator is consumed twice on a path). Declines: optimality of the Hungarian "
             "solver, conditioning.", SYMNOTE + "linear_sum_assignment minimises over perfect assignments.",
             "DESIGN.md §4 C02"),
@@ -91,7 +94,7 @@ CHECKS.update({
                   "sign analysis of the radicand; HT-MULT (non-accumulating scatter) and the narrowing dataflow (no cast of the "
                   "diagrams' coordinates to single precision: two inter-procedural fixpoints), both with positive examples",
             CLAUSE + "Decides HT-KER (incl. inputs with exact and near ties: conditions that select rows are exercised on both "
-            "sides), HT-DIST, HT-SWAP, HT-UNITS, HT-REAL, HT-STATE, HT-ONESIGMA (heat executed with the bandwidth supplied through every parameter that can carry it, the kernel routines observed: all kernel terms of one distance receive one setting), HT-DTYPE (also: the squared distances are not formed in the integer dtype of the input arrays — found F13) and proves HT-SHIFT (row-selecting conditions are typed too) (translation invariance for "
+            "sides), HT-DIST, HT-SWAP, HT-UNITS, HT-REAL, HT-STATE, HT-ONESIGMA (heat executed with the bandwidth supplied through every parameter that can carry it, the kernel routines observed: all kernel terms of one distance receive one setting), HT-EMPTY (heat evaluated with one empty side does not reduce to the both-empty value), HT-DTYPE (also: the squared distances are not formed in the integer dtype of the input arrays — found F13) and proves HT-SHIFT (row-selecting conditions are typed too) (translation invariance for "
             "every input, exact arithmetic). Declines: exact zeros in floating point, triangle inequality, stability.",
             SYMNOTE + "sigma > 0.", "DESIGN.md §4 C14"),
 })
@@ -108,7 +111,7 @@ CHECKS.update({
     "C16": (True, "symbolic evaluation to the entropy normal form under every flag configuration; degree/weight/"
                   "row-symmetry facets; path-condition (guard) equivalence; raise events whose path condition mentions the "
                   "supplied value alone",
-            CLAUSE + "Decides PE-FORM (normalised form for n >= 2 bars), PE-GUARD, PE-INF, PE-LIST (a list of barcodes of different sizes, with and without normalize: entry k is the entropy of barcode k normalised by its own size) and proves PE-INV (scale, translation and order invariance "
+            CLAUSE + "Decides PE-FORM (normalised form for n >= 2 bars), PE-GUARD, PE-INF, PE-STYLE (the entry point executed with its flags given by keyword and by position — decorators of the package applied — hands the same settings to the inner routine), PE-LIST (a list of barcodes of different sizes, with and without normalize: entry k is the entropy of barcode k normalised by its own size) and proves PE-INV (scale, translation and order invariance "
             "for every barcode, keep_inf=False). Declines: the numeric bounds 0<=E<=log n.",
             SYMNOTE, "DESIGN.md §4 C16"),
 })
@@ -118,7 +121,7 @@ CHECKS.update({
                   "expanded) + symbolic evaluation of the plotting functions against an abstract axes: drawing calls logged "
                   "with reachability conditions, coordinate normal forms and style arguments, one call site split into arms "
                   "by the conditions inside its coordinates",
-            CLAUSE + "Decides PL-DTYPE (rotated coordinates are not stored into a scratch array typed by an integer diagram), PL-RECV, PL-IDX, PL-FOOT, PL-SEG, PL-MAX, PL-DGM, PL-LIM, PL-LAND (both landscape plots evaluated on a 3-depth "
+            CLAUSE + "Decides PL-DTYPE (rotated coordinates are not stored into a scratch array typed by an integer diagram), PL-RECV, PL-IDX, PL-FOOT, PL-SEG, PL-MAX (per call site of the highlighted segment), PL-DGM (incl. a plot_only selection with labels: each collection carries its own diagram's label), PL-LIM, PL-LAND (both landscape plots evaluated on a 3-depth "
             "landscape of symbols with a recording axes object, for a depth selection and the default, on a computed landscape and on one built with compute=False whose data "
             "appear only when compute_landscape is called: every line carries the requested depth's own data and label, and "
             "nothing is read from the landscape before it is computed). Declines: pixel-level "
@@ -142,9 +145,10 @@ CHECKS.update({
                   "pair enumeration and symmetrisation with a write-set argument for 'never symmetrised', type ladder) "
                   "+ call-graph reachability of random generators; GH-RESULT: the entry point evaluated with the per-pair work "
                   "stubbed for collections of 2, 3, 4 graphs and the two-argument form; GH-INT: the type chooser evaluated at the "
-                  "values around the type limits",
+                  "values around the type limits; GH-MAXD: bound provenance — backward expansion (reaching definitions, parameters into callers' arguments, helper returns, NamedTuple fields and "
+                  "single __init__ stores) of the two arguments of the distance-histogram builder along every call path",
             CLAUSE + "Decides GH-COERCE, GH-LCC, GH-SYM (incl. a normal form of triangle index pairs — triu/tril_indices(_from), "
-            "[::-1], .T — deciding position-by-position transposition), GH-INT, GH-DET. Declines: that the bounds bracket the distance (C05) "
+            "[::-1], .T — deciding position-by-position transposition), GH-INT, GH-DET, GH-MAXD (the table of `b + 1` columns indexed by `b − distance` is always built with a bound that expands to a maximum covering the matrix it is built from, so no count wraps round to a wrong column — a necessary condition of valid brackets). Declines: that the bounds bracket the distance (C05) "
             "and relabelling invariance of the bounds.",
             "Trusted: scipy shortest_path / connected_components semantics; the accepted restriction idioms are DG[m][:, m], "
             "DG[np.ix_(m, m)], DG[m, :][:, m] (anything else is reported as unmodelled, exit 2).", "DESIGN.md §4 C17"),
@@ -166,8 +170,8 @@ CHECKS.update({
                   "refinement at every power site; degree typing with a symbolic exponent; NM-SHAPES / NM-SUP (bounded): the norms "
                   "evaluated on landscapes of given shapes (1-3 depths, 1-4 critical pairs, level segments) against the definition, "
                   "whatever the traversal (nested loops, flat chain with seams, piece objects); site rules for wiring; NM-DTYPE (dtype-inheritance dataflow over the functions reachable from the norm entry points)",
-            CLAUSE + "Decides NM-LAZY (must-pass-through: every read of the lazily computed data in p_norm / sup_norm lies behind a call that "
-            "always runs compute_landscape(), through the MRO), NM-SIGN, NM-FORM (summand = integral of |line|^p in all three arms), NM-HOM (degree 1), NM-ARMS, "
+            CLAUSE + "Decides NM-LAZY (must-pass-through: every read in p_norm / sup_norm of what compute_landscape stores lazily — critical_pairs / values / max_depth, read off its stores — lies behind a call that "
+            "always runs compute_landscape(), through the MRO and through decorators of the package, or behind the computed edge of a test on the marker attribute), NM-SIGN, NM-FORM (summand = integral of |line|^p in all three arms), NM-HOM (degree 1), NM-ARMS, "
             "NM-SUP, NM-WIRE (the call of the integrator reached by the default call; calls reached only when an optional parameter is given are a newer option and are not judged), NM-ALLDEPTHS (the loops of _p_norm over depths and segments run to the end), NM-DTYPE (the critical pairs are not laid out in a buffer typed by the landscape's samples). Declines: triangle inequality, stability vs bottleneck, nearly flat segments.",
             SYMNOTE + "Abscissae strictly increasing along a depth; p >= 1.", "DESIGN.md §4 C10"),
 })
@@ -229,7 +233,7 @@ CHECKS.update({
                   "padding/re-sampling on the helper-inlined view",
             CLAUSE + "Decides AR-RETVAL (no operator takes an operand's data from the return value of a call that can return nothing), AR-EFFECT, AR-OWN, AR-LAZY, AR-GUARD, AR-UNARY, AR-PAD (evaluator-based: what union_vals / "
             "union_crit_pairs return for operands of different depth), AR-SNAP (decided on the constructor calls observed while snap_pl is followed on two landscapes with independent symbolic "
-            "grids), AR-LAZYREAD (operators compute lazily built operands before reading them), AR-LC, AR-DEFAULT, AR-STYLE (the landscape tools executed with the grid given by keyword and by position, the tool they hand over to observed: the grid that arrives is the one asked for), and — BOUNDED — AR-MERGE: the "
+            "grids), AR-LAZYREAD (operators compute lazily built operands before reading anything compute_landscape stores, of either operand), AR-LC, AR-DEFAULT, AR-STYLE (the landscape tools executed with the grid given by keyword and by position, the tool they hand over to observed: the grid that arrives is the one asked for), and — BOUNDED — AR-MERGE: the "
             "slope merge (pos_to_slope_interp / sum_slopes / slope_to_pos_interp through union_crit_pairs) is followed for every "
             "ordering class (interleaving with ties) of the breakpoints of two depths with up to 3 breakpoints each (thorough: "
             "4; 126 / 787 classes), symbolic ordinates, and equals f_A + f_B at every breakpoint of the union. Declines: the "
